@@ -3,9 +3,9 @@
 # total over shards of rapidcheck max_success (each Prop in the harness scales
 # it by its own weight); `size` is rapidcheck max_size.
 
-def stage(name, harness=None, flavour="asan", quick=None, thorough=None, env=None, props=None):
+def stage(name, harness=None, flavour="asan", quick=None, thorough=None, env=None, props=None, case_timeout=300):
     return dict(name=name, harness=harness or name, flavour=flavour, quick=quick, thorough=thorough,
-                env=env or {}, props=props or [])
+                env=env or {}, props=props or [], case_timeout=case_timeout)
 
 CHECKS = {}
 
@@ -16,7 +16,7 @@ for _i in range(1, 21):
     NOT_APPLICABLE["C%02d" % _i] = "check under construction in this round: not claimed until its harness is committed"
 
 # "fix:" commits made to /repo (genuine defects found by these checks)
-FIX_COMMITS = ["055d977 (C17 floyd_warshall)", "48d1978 (C15 ActionInfo::firstMove)", "c551cd9 (C06 calcRouteDist)",
+FIX_COMMITS = ["b7b870c (C02 static Solver split with scales)", "055d977 (C17 floyd_warshall)", "48d1978 (C15 ActionInfo::firstMove)", "c551cd9 (C06 calcRouteDist)",
                "30473cc (C20 CmpNodePos)", "9f592b9 (C02 IncSolver::solve)"]
 HOOK_COMMITS = []
 
@@ -58,6 +58,48 @@ CHECKS["C16"] = dict(
     exhaustive=True,
     min_nontrivial=dict(quick=100000, thorough=1000000),
     assumptions=["coordinates are integers or half-integers below 2^21 in magnitude, so every product in the predicates is exact in double"],
+)
+
+CHECKS["C01"] = dict(
+    stages=[stage("C01", harness="VPSC", props=["C01."], case_timeout=120,
+                  quick=dict(cases=120000, size=100, shards=12),
+                  thorough=dict(cases=4000000, size=100, shards=16))],
+    technique="rapidcheck property-based testing: generated VPSC problems and addConstraint/move/re-solve histories against a "
+              "constraint-residual validity predicate and a Bellman-Ford positive-cycle feasibility oracle",
+    level_text="Generated-input search over variable counts, desired positions, weights, scales and constraint multigraphs "
+               "(DAG, cyclic, chains with duplicates, witness-feasible, near-infeasible; equalities; negative/zero gaps) for "
+               "vpsc::IncSolver, vpsc::Solver and libavoid's private Avoid::IncSolver, with satisfy() and solve(), plus histories "
+               "of addConstraint / change-desired-position / re-solve on one live solver.  Every unflagged constraint is "
+               "re-evaluated on the returned positions (1e-6), positions must be finite, and for inequality-only unit-scale "
+               "systems 'something flagged or thrown' must coincide with an independent positive-cycle test.",
+    level_note="The static vpsc::Solver is only exercised on its documented domain (acyclic, inequalities only; see known finding F2). "
+               "The property's 'iff' is checked at existence level (some constraint flagged <=> system infeasible), not which constraint.",
+    rule="rapidcheck-generated problems (n<=40 quick, <=300 thorough) over five constraint-graph shapes x three solvers x "
+         "{satisfy, solve}, plus histories of up to 12 operations; non-trivial = at least one constraint is violated by the "
+         "desired positions (so the solver has to merge); distinct by FNV-1a of the case text",
+    min_nontrivial=dict(quick=5000, thorough=200000),
+    assumptions=["gaps are multiples of 1/2 so feasibility of the difference system is decided exactly",
+                 "constraints never have left == right"],
+)
+
+CHECKS["C02"] = dict(
+    stages=[stage("C02", harness="VPSC", props=["C02."], case_timeout=120,
+                  quick=dict(cases=60000, size=100, shards=12),
+                  thorough=dict(cases=3000000, size=100, shards=16))],
+    technique="rapidcheck property-based testing against an independent self-certifying QP oracle (Hildreth dual ascent + "
+              "active-set polish + duality-gap certificate); permutation metamorphic relation",
+    level_text="Generated feasible VPSC instances (acyclic with weights 2^-3..2^6 and scales, or cyclic built from a witness "
+               "placement with many tight constraints and equalities) solved by vpsc::IncSolver, vpsc::Solver and "
+               "Avoid::IncSolver; re-solve histories after desired positions move; permuted variable ids and constraint order.  "
+               "Each result is compared (1e-5 relative to the problem scale) with an optimum computed independently and "
+               "certified by a duality-gap bound, so a failure is a certificate and an uncertified case is counted "
+               "inconclusive, never reported.",
+    level_note="Trusts the oracle's certificate arithmetic (long double).  Instances where a constraint is reported unsatisfiable "
+               "are outside the property and skipped (counted).",
+    rule="rapidcheck-generated feasible problems (n<=40 quick, <=300 thorough); non-trivial = the certified optimum has at "
+         "least one active constraint and a block of >= 3 variables; distinct by FNV-1a of the case text",
+    min_nontrivial=dict(quick=4000, thorough=200000),
+    assumptions=["weights are positive powers of two in [2^-3, 2^6]; scales in {0.5,1,2,4} on acyclic systems only"],
 )
 
 for _k in CHECKS:
